@@ -2,7 +2,7 @@
    Only statements closed by [exact <lemma>] and their assumptions.                    *)
 From Coq Require Import ZArith Reals List.
 From FF Require Import Base.Ops Inst.RInst Base.RAlg Base.FMat Model.Numeric Model.Decay Model.Cumulant
-     Model.Tie.C12 Proofs.CMBase Proofs.BasisIndep Proofs.FrameInv Proofs.PauliOnb Proofs.Trapz Proofs.Decay Proofs.TraceId Proofs.BasisChange Proofs.InfidBasis Proofs.EtmCovariance.
+     Model.Tie.C12 Proofs.CMBase Proofs.BasisIndep Proofs.FrameInv Proofs.PauliOnb Proofs.Trapz Proofs.Decay Proofs.TraceId Proofs.BasisChange Proofs.BasisChange2 Proofs.InfidBasis Proofs.EtmCovariance.
 From FF Require Model.Consts Inst.Param Corr.Agree Corr.Obs Corr.ObsC08.
 Import ListNotations.
 Local Open Scope R_scope.
@@ -97,6 +97,18 @@ Theorem C12_K_change_of_basis : forall d n (Cb Cb' : nat -> fmat),
                                           (K1_entry RO n (T4 d Cb) G a b))).
 Proof. exact K1_change_of_basis. Qed.
 Print Assumptions C12_K_change_of_basis.
+(* ... and the SECOND-order part: Delta' = O Delta O^T  =>  K2' = O K2 O^T *)
+Theorem C12_K2_change_of_basis : forall d n (Cb Cb' : nat -> fmat),
+  basis_herm d n Cb -> basis_orthonormal d n Cb -> basis_complete d n Cb -> basis_herm d n Cb' -> basis_complete d n Cb' ->
+  forall D D' : RMr,
+  (forall k l, (k < n)%nat -> (l < n)%nat ->
+     rmget RO D' k l = sumn' n (fun m => sumn' n (fun p => Omat d Cb Cb' k m * Omat d Cb Cb' l p * rmget RO D m p))) ->
+  forall i j, (i < n)%nat -> (j < n)%nat ->
+  K2_entry RO n (T4 d Cb') D' i j =
+  csumn' n (fun a => csumn' n (fun b => cmul' (cmul' (CumulantCCP.rcx (Omat d Cb Cb' i a)) (CumulantCCP.rcx (Omat d Cb Cb' j b)))
+                                          (K2_entry RO n (T4 d Cb) D a b))).
+Proof. exact K2_change_of_basis. Qed.
+Print Assumptions C12_K2_change_of_basis.
 Theorem C12_K_trace_invariant : forall d n (Cb Cb' : nat -> fmat),
   basis_herm d n Cb -> basis_orthonormal d n Cb -> basis_complete d n Cb -> basis_herm d n Cb' -> basis_complete d n Cb' ->
   forall G G' : RMr,
